@@ -175,7 +175,7 @@ def generate(tier):
     return out
 
 
-RULE = ('structs and enum variants with 1..3 fields over field types {u8, u16, W (user type)} (thorough: + u32, &\'static str) '
+RULE = ('wide (4-5 fields, 4 variants) and very wide (12 fields, marker at 0, 1, 9, 10, 11) elements with at most one marker; structs and enum variants with 1..3 fields over field types {u8, u16, W (user type)} (thorough: + u32, &\'static str) '
         'x target sets x every placement of field-level Into(T) / Into(T, method) markers up to the marker bound that the '
         'documented designation rules accept (explicit marker, else sole field, else unique field of type T) and whose '
         'conversions type-check; two-variant enums with independent designations; oracle: x.into() equals the designated '
